@@ -207,7 +207,7 @@ func (x *Exec) frameCheck(st *State, fr *Frame, c *Contract, in *ssa.Return) {
 		for _, ex := range m.Exprs {
 			x.modTarget(fr.entry, fr, ex, func(kind, sort, ref string, cell *Cell) {
 				switch kind {
-				case "ref":
+				case "ref", "readerpos":
 					allowed[sort] = append(allowed[sort], ref)
 				case "heap":
 					allHeap[sort] = true
@@ -379,7 +379,10 @@ func (x *Exec) ghostTarget(st *State, v Val, kind string, f func(kind, sort, ref
 			x.ghostTarget(st, u.Payload, kind, f)
 		}
 	case PtrV:
-		if u.Ref != "" {
+		if u.Ref != "" && kind == "rem" && ghostFor(u.Elem) == "bytes.Reader" {
+			// reading moves the position of a bytes.Reader, its content stays
+			f("readerpos", u.RootSort, u.Ref, nil)
+		} else if u.Ref != "" {
 			f("ref", u.RootSort, u.Ref, nil)
 		} else if u.Cell != nil {
 			f("cell", "", "", u.Cell)
@@ -448,6 +451,12 @@ func (x *Exec) callByContract(st *State, fr *Frame, callee *ssa.Function, c *Con
 		for _, ex := range m.Exprs {
 			x.modTarget(pre, cf, ex, func(kind, sort, ref string, cell *Cell) {
 				switch {
+				case kind == "readerpos":
+					d := x.w.DTByName(sort)
+					o := st.heapSelect(sort, ref)
+					np := st.fresh("pos", SInt)
+					st.assume(tAnd(tCmp("<=", "0", np), tCmp("<=", np, sLen(SSeqI, d.Get(0, o)))))
+					st.heapStore(sort, ref, d.Make([]string{d.Get(0, o), np}))
 				case kind == "ref":
 					nv := st.fresh("mod", sort)
 					st.heapStore(sort, ref, nv)
